@@ -230,6 +230,7 @@ class System(PrintObject):
       
       # For each instance of the signal sequence, build a structure to 
       #   constrain it to the master signal sequence
+      done = set()  # A port bound to this signal twice (as an input and as an output) gets one connector
       for loc_seq, comp_name, wc in self.signals[signal]:
         if isinstance(loc_seq, DNA_classes.Sequence):
           sig_name = comp_name + "-" + loc_seq.name
@@ -243,6 +244,9 @@ class System(PrintObject):
           seqs = prefix + sig_name
         
         dummy_name = signal_name + "-" + sig_name
+        if (dummy_name, wc) in done:
+          continue
+        done.add((dummy_name, wc))
         outfile.write("structure %s = %s\n" % (dummy_name, "(" * length + "+" + ")" * length))
         
         if wc: # If it's complementary to the signal, then we can enforce that directly
